@@ -163,7 +163,7 @@ fn check_one<CS: BbsCiphersuite>(rep: &Report, ck: &str, c: &Case) -> CheckResul
     let ph = c.ph.get();
     let (hdr, phd) = (header.as_deref(), ph.as_deref());
     let l = msgs.len();
-    let idx = mask_to_indexes(c.mask & ((1u32 << l) - 1), l);
+    let idx = mask_idx(c.mask, l);
     let dm: Vec<Vec<u8>> = idx.iter().map(|&i| msgs[i].clone()).collect();
     let r_cnt = idx.len();
     let u = l - r_cnt;
@@ -184,7 +184,10 @@ fn check_one<CS: BbsCiphersuite>(rep: &Report, ck: &str, c: &Case) -> CheckResul
     };
 
     // ---- (a) statement edits ----------------------------------------------------------------
-    for k in 0..r_cnt {
+    // large statements: edits at sampled disclosed entries / target positions
+    let ks: Vec<usize> = if l <= 12 || r_cnt <= 4 { (0..r_cnt).collect() } else { vec![0, r_cnt / 2, r_cnt - 1] };
+    let targets: Vec<usize> = if l <= 12 { (0..l).collect() } else { vec![0, 1, l / 2, l - 2, l - 1] };
+    for &k in &ks {
         let mut d2 = dm.clone();
         if d2[k].is_empty() {
             d2[k].push(0x80);
@@ -194,7 +197,7 @@ fn check_one<CS: BbsCiphersuite>(rep: &Report, ck: &str, c: &Case) -> CheckResul
         }
         cx.expect_reject("disclosed-message-changed", ver(&d2, &idx, hdr, phd, pk), || format!("disclosed #{}", k))?;
         // move index k to every other position
-        for p in 0..l {
+        for &p in &targets {
             if p == idx[k] {
                 continue;
             }
@@ -216,8 +219,8 @@ fn check_one<CS: BbsCiphersuite>(rep: &Report, ck: &str, c: &Case) -> CheckResul
         i3.remove(k);
         cx.expect_reject("disclosed-dropped", ver(&d3, &i3, hdr, phd, pk), || format!("dropped #{}", k))?;
     }
-    for a in 0..r_cnt {
-        for b in a + 1..r_cnt {
+    for a in 0..r_cnt.min(6) {
+        for b in a + 1..r_cnt.min(6) {
             if dm[a] != dm[b] {
                 let mut d2 = dm.clone();
                 d2.swap(a, b);
@@ -280,7 +283,8 @@ fn check_one<CS: BbsCiphersuite>(rep: &Report, ck: &str, c: &Case) -> CheckResul
     }
     // whole-scalar framing edits: remove / duplicate / insert a 32-byte chunk at every position
     let n_chunks = (pb.len() - 144) / 32; // e^, r1^, r3^, m^_1..m^_U, c
-    for pos in 0..n_chunks {
+    let chunk_positions: Vec<usize> = if n_chunks <= 14 { (0..n_chunks).collect() } else { vec![0, 1, 2, 3, 4, n_chunks / 2, n_chunks - 3, n_chunks - 2, n_chunks - 1] };
+    for pos in chunk_positions {
         let off = 144 + 32 * pos;
         let mut rm = pb.clone();
         rm.drain(off..off + 32);
@@ -464,6 +468,21 @@ fn all_bits_cases(seed: u64, n_per_suite: usize) -> Vec<Case> {
 pub fn run(ctx: &Ctx, rep: &Report) -> Meta {
     let ab = all_bits_cases(ctx.seed, ctx.tier.pick(6, 48));
     par_items(ctx, rep, "all-bit-flips", &ab, |c| check(rep, "all-bit-flips", c));
+    // larger statements: every L in 9..=40 (quick) / 9..=100 (thorough) and 63..65, few disclosed positions
+    let sweep: Vec<Case> = (9..=ctx.tier.pick(40usize, 100usize))
+        .chain([63, 64, 65])
+        .map(|l| Case {
+            suite: if l % 2 == 0 { SuiteId::Sha256 } else { SuiteId::Shake256 },
+            key: KeySpec { fixture: false, ikm: BSpec { len: 32, class: 0, seed: (ctx.seed as u32).wrapping_add(l as u32) }, key_info: OptBytes::None, key_dst: OptBytes::None },
+            header: [OptBytes::None, OptBytes::Bytes(BSpec { len: 16, class: 0, seed: 1 })][l % 2].clone(),
+            ph: [OptBytes::Bytes(BSpec { len: 8, class: 0, seed: 2 }), OptBytes::None][l % 2].clone(),
+            msgs: MsgVec { items: (0..l).map(|j| BSpec { len: [4usize, 0, 33][j % 3], class: 0, seed: (l * 1000 + j) as u32 }).collect() },
+            mask: [0b10000010u32, 0, 0x8000_0001, 0xffff_ffff][l % 4] | if l % 4 == 3 { 0 } else { 1 << ((l - 1) % 32) },
+            seed: (ctx.seed as u32).wrapping_add(31 * l as u32),
+            all_bits: false,
+        })
+        .collect();
+    par_items(ctx, rep, "size-sweep", &sweep, |c| check(rep, "size-sweep", c));
     run_cases(ctx, rep, "edits-and-forgeries", ctx.tier.pick(64, 800), 100, strat, |c| check(rep, "edits-and-forgeries", c));
     Meta {
         rule: "honest (pk, sig, msgs L=1..8, D, header, ph, proof) then (a) statement edits: every disclosed message changed / dropped, every disclosed index moved to every other position (as given and re-sorted), \
